@@ -42,6 +42,37 @@ Lemma derive_cor_correlation cor corr uv ug var nug lr x :
   derive O d u var nug lr Covariance x = Some (covariance_from O corr var x) /\
   derive O d u var nug lr Variogram x = Some (variogram_from O corr var nug x).
 Proof. repeat split. Qed.
+
+(* derived quantities are functions of the current parameter state only: whatever sequence of assignments and
+   reads produced the object, what is read equals what a freshly constructed object with the same parameters
+   gives; two histories ending in the same parameters are indistinguishable *)
+Lemma observe_fresh cls ops st0 r :
+  let st := run_ops O cls ops st0 in
+  observe O cls st r
+  = observe O cls (construct (s_var st) (s_len st) (s_nugget st) (s_rescale st) (s_p1 st) (s_p2 st) (s_p3 st)
+                             (s_dim st) (s_anis st)) r.
+Proof. intros st. destruct st; reflexivity. Qed.
+
+Lemma observe_history_free cls ops1 ops2 st1 st2 r :
+  run_ops O cls ops1 st1 = run_ops O cls ops2 st2 ->
+  observe O cls (run_ops O cls ops1 st1) r = observe O cls (run_ops O cls ops2 st2) r.
+Proof. intros E. rewrite E. reflexivity. Qed.
+
+(* frame: an assignment changes its own parameter only (SetIntScale: the length scale only) *)
+Lemma set_step_frame cls st op :
+  let st' := set_step O cls st op in
+  ((forall v, op <> SetVar v) -> s_var st' = s_var st) /\
+  ((forall v, op <> SetNugget v) -> s_nugget st' = s_nugget st) /\
+  ((forall d, op <> SetDim d) -> s_dim st' = s_dim st) /\
+  ((forall k v, op <> SetOpt k v) -> s_p1 st' = s_p1 st /\ s_p2 st' = s_p2 st /\ s_p3 st' = s_p3 st) /\
+  ((forall v, op <> SetLen v) -> (forall t, op <> SetIntScale t) -> s_len st' = s_len st).
+Proof.
+  destruct st as [var len nug resc p1 p2 p3 dim anis]; destruct op as [v|v|v|v|[|[|k]] v|d|a|t]; cbn -[set_intscale_of];
+    try (destruct (set_intscale_of O cls p1 resc t); cbn);
+    repeat split; intros; try reflexivity;
+    try (exfalso; match goal with H : forall _, _ <> _ |- _ => eapply H; reflexivity end);
+    try (exfalso; match goal with H : forall _ _, _ <> _ |- _ => eapply H; reflexivity end).
+Qed.
 End Generic.
 
 (* ================================================================ at R *)
